@@ -435,6 +435,13 @@ def loader_eval(ctx, R, PR, name_attr, desc_attr, markers=None):
             return [(fd.Const(args[0].v.fields.get("disabled", False)), None)]
         if name and name.startswith("self.") and name[5:] in R.m and R.m[name[5:]] is not r:
             return fd.Inline(R.m[name[5:]])
+        fn_ = e.func
+        fm_ = prog.module("factory")
+        if isinstance(fn_, ast.Name) and fn_.id in fm_.funcs:
+            g_ = fm_.funcs[fn_.id]
+            # a memoised pure function answers like the function (functools caches are keyed by the arguments)
+            if all(("lru_cache" in d) or d in ("functools.cache", "cache") for d in g_.decorators):
+                return fd.Inline(g_)
         return None
 
     def getattr_hook(interp, rec, e, st):
